@@ -52,6 +52,60 @@ CLAIMED = {
              "Partial: the harness covers unique-future pipelines; combinators, shared states, coroutine frames and executor jobs are "
              "covered by the Handoff/RACounter theorems and by the oracles of the C06/C07/C08/C09/C13 checks, not re-run here; heap "
              "misuse invisible to instance tracking, allocation balance and ASan is not detected."),
+    "C07": dict(
+        text="Machine-checked invariant of the Strand transition system (one atomic operation on the jobs word per step; N submitting "
+             "threads with weak-CAS loops, unbounded anonymous activations/workers, underlying executor free to Call or Drop) proves for "
+             "every schedule: at most one job between begin and end and at most one batch; Call order = order of the pushing CASes "
+             "(FIFO equation, no overtaking, per-submitter program order); no job finished twice or both ways, at quiescence every pushed "
+             "job Called or Dropped exactly once, Dropped only if the underlying executor refused; no strand step blocks or dereferences "
+             "null/marker, global progress, <= 18 own steps per job; the strand refines the executor-interface LTS it requires "
+             "(forward simulation) and a strand over a strand (two-level product) keeps all of it. Happens-before between jobs is C04's. "
+             "Tied to the code by exploring the real MakeStrand over an instrumented manual executor with worker fibers (exhaustive DFS "
+             "up to 2 submitters x 1 job x 1 worker incl. refusals; preemption-bounded DFS for 2x1x2, 2x2x1, 2x2x2; seeded random for "
+             "3x3), FairThreadPool(1|2) with Stop/HardStop/SoftStop, and strand over strand; every distinct trace is replayed through "
+             "Strand.run (and StrandStack.run2) in Coq and must be accepted with equal Call/Drop histories.",
+        design="DESIGN.md §5 C07, Appendix A.2, Appendix B, §10",
+        technique="Coq invariant + simulation proofs over an executable LTS; exhaustive/bounded/random trace correspondence (vm_compute replay)"),
+    "C08": dict(
+        text="Machine-checked invariant of the Pool transition system (one step per critical section of the pool mutex, per condvar "
+             "notify / spurious wake-up, per Call/Drop; any number of workers, submitters and jobs; one stopper doing Stop|SoftStop|"
+             "HardStop then Wait) proves for every schedule: the counter word, computed with the literal operations extracted from "
+             "fair_thread_pool.cpp, always encodes (queued+running, want-stop, stopped) and never wraps; a Submit is rejected iff the "
+             "pool is stopped; no job is ever Called twice, Dropped twice or both, and at quiescence every submitted job was Called "
+             "xor Dropped exactly once; Stop/SoftStop still Call everything accepted and Stop accepts nothing afterwards; HardStop drops "
+             "exactly the jobs queued at its step, once each, never Called; under SoftStop the stop bit is only ever set with counter 0 "
+             "and nothing queued or held; Wait returns only when all workers exited, after which no job runs in any continuation; jobs "
+             "are dequeued in acceptance order and with one worker Calls begin in acceptance order; no worker is left sleeping once the "
+             "stop call is over (no missed notify). Tied to the code by replaying in Coq every explored interleaving of the real "
+             "FairThreadPool (exhaustive DFS for 1 worker x 1 submitter x each stop kind; exhaustive with atomic critical sections for "
+             "larger cases; preemption-bounded DFS and seeded random up to 3 workers x 3 submitters), comparing _jobs_count, queue "
+             "contents, waiter count after every critical section and the Call order / Drop set.",
+        design="DESIGN.md §5 C08, §10",
+        technique="Coq invariant proof over an executable LTS with the source's bit layout (literals translated from the .cpp) + exhaustive/bounded/random trace correspondence"),
+    "C02": dict(
+        text="Pipe.core_run, which mirrors core.hpp's dispatch by invocability in Tag order, CallImpl's try-block, CallResolveState "
+             "routing, CallResolveAsync/unwrapping, executor transfer and stopped-executor Drop, is proved equal to the sequential reading "
+             "seq_eval for every program, every callback body and every length or nesting, with per-clause corollaries (value callback "
+             "only on success, failures pass unchanged, recovery only on its kind, Result callback always runs, throw becomes Exception, "
+             "Result stored as is, flatten of Future/SharedFuture/Task however built, at most once in order), plus typing soundness. "
+             "Tied to the code by running the same typed programs on the real library through a generated table of all 1404 then-cells "
+             "and 300 run-cells and comparing final Result and ordered (callback, argument) lists with core_run/seq_eval inside Coq "
+             "(32k programs quick / 495k thorough), with an in-process oracle written from the property text.",
+        design="DESIGN.md §5 C02, §10",
+        technique="Coq refinement proof between two executable semantics + program correspondence over a generated instantiation table",
+        note="Trusted: Coq kernel + vm_compute; tools/gen_pipeline_table.py and checks/pipelib.py (program printers), the harness "
+             "interpreter; shipped configuration with coroutines (BC), single thread. Timing of hand-off is C01's subject; Result::Empty, "
+             "Detach-type final steps and Split/Share/Connect are outside the program alphabet."),
+    "C12": dict(
+        text="Lazy.v Task-object machine over Pipe: building runs nothing; started (10 start kinds: ToFuture, ToFuture(e), Get, Detach, "
+             "Detach(e), returned as inner Task, co_await, Await, ...) equals the eager twin with every core at most once in order and "
+             "every functor released exactly once; dropping an unstarted Task is StopError through the chain (nothing runs without a "
+             "recovery-capable callback, the first callback invoked sees StopError; the literal 'no value callback' reading is refuted "
+             "by design with a witness and not flagged); dropping a completed Task releases only. Tied by replaying every lazy program x "
+             "start/abandon kind through Lazy.trun (41k cases quick / 330k thorough) with counters on every functor.",
+        design="DESIGN.md §5 C12, §10",
+        technique="Coq proofs over an object state machine on the C02 semantics + program correspondence",
+        note="Trusted: as C02. Partial: a coroutine head started on another executor (ToFuture(e)) has correspondence only, no theorem."),
 }
 
 PENDING = {}
